@@ -52,7 +52,7 @@ def gen_graph(rng, gid):
         props = []
         for p in PROP_POOL:
             if rng.random() < 0.18:
-                props.append({"name": p, "type": rng.choice(("int", "bool", "QString")), "read": p,
+                props.append({"name": p, "type": rng.choice(("int", "bool", "QString", "int", "NoSuchType%d" % rng.randrange(2))), "read": p,
                               "constant": False, "designable": True, "final": False, "required": False,
                               "scriptable": True, "stored": True, "user": False})
         meths = {"signals": [], "slots": [], "methods": []}
@@ -64,7 +64,9 @@ def gen_graph(rng, gid):
                     d = {"name": m, "access": acc, "returnType": "void"}
                     na = rng.randrange(3)
                     if na:
-                        d["arguments"] = [{"type": rng.choice(("int", "bool", "QString"))} for _ in range(na)]
+                        d["arguments"] = [{"type": rng.choice(("int", "bool", "QString", "int", "NoSuchArg%d" % rng.randrange(2)))} for _ in range(na)]
+                    if rng.random() < 0.08:
+                        d["returnType"] = "NoSuchRet"
                     meths[kind].append(d)
         enums = []
         used_vars = set()
@@ -83,6 +85,111 @@ def gen_graph(rng, gid):
     return {"id": "g%d" % gid, "style": style, "classes": classes, "enums": top_enums, "subjects": subjects,
             "property_names": PROP_POOL + ["absent"], "method_names": METH_POOL + ["absent"],
             "type_names": ENUM_POOL + ["Absent"], "variant_names": VAR_POOL + ["VX"]}
+
+
+def gen_modules_graph(rng, gid):
+    """Several named modules importing each other; the SAME class name may occur in several modules (distinct classes).
+
+    Imports are not transitive (a module sees its own classes and those of the modules it imports directly). Every super-class
+    name used in a module is unique among the classes visible there, so its resolution does not depend on any lookup precedence; every class declares one property with a globally unique name, which identifies its owner.
+    """
+    pool = ["X", "Y", "Z", "W"]
+    k = rng.randint(2, 5)
+    mods = []
+    for i in range(k):
+        imports = [j for j in range(i) if rng.random() < 0.6]
+        if i > 0 and not imports:
+            imports = [rng.randrange(i)]
+        mods.append({"i": i, "name": "m%d" % i, "imports": imports, "classes": []})
+    nodes = {}     # (module index, name) -> [resolved super nodes]
+
+    def closure(i):
+        seen, q = set(), [i]
+        while q:
+            x = q.pop()
+            if x in seen:
+                continue
+            seen.add(x)
+            q += mods[x]["imports"]
+        return seen
+    for m in mods:
+        i = m["i"]
+        for name in rng.sample(pool, rng.randint(1, 3)):
+            direct = {i} | set(m["imports"])
+            clo = direct
+            count = {}
+            for (mi, n) in list(nodes) + [(i, name)]:
+                if mi in clo:
+                    count[n] = count.get(n, 0) + 1
+            cands = [(mi, n) for (mi, n) in nodes if mi in direct and count.get(n) == 1 and (mi, n) != (i, name)]
+            supers = rng.sample(cands, min(len(cands), rng.choice((0, 1, 1, 2)))) if cands else []
+            nodes[(i, name)] = supers
+            m["classes"].append({
+                "className": name, "qualifiedClassName": name, "object": True,
+                "superClasses": [{"name": n, "access": "public"} for (_, n) in supers],
+                "properties": [{"name": "q_m%d_%s" % (i, name), "type": "int", "read": "r", "constant": False, "designable": True,
+                                "final": False, "required": False, "scriptable": True, "stored": True, "user": False}],
+                "enums": [], "signals": [], "slots": [], "methods": []})
+    # a class defined later in a module may make an earlier super name of that module ambiguous: drop such graphs
+    for (i, name), supers in nodes.items():
+        clo = {i} | set(mods[i]["imports"])
+        for (_, n) in supers:
+            if sum(1 for (mi, nn) in nodes if mi in clo and nn == n) != 1:
+                return None
+    subjects = ["m%d/%s" % key for key in nodes]
+    return {"id": "g%d" % gid, "style": "modules", "classes": [], "enums": [],
+            "modules": [{"name": m["name"], "imports": ["m%d" % j for j in m["imports"]], "classes": m["classes"]} for m in mods],
+            "subjects": subjects, "property_names": ["q_m%d_%s" % key for key in nodes],
+            "method_names": [], "type_names": [], "variant_names": [],
+            "nodes": {"m%d/%s" % k: ["m%d/%s" % x for x in v2] for k, v2 in nodes.items()}}
+
+
+def check_modules_job(v, job, r, stats):
+    """Same-named classes of different modules are different classes: reachability over the resolved edges is the oracle."""
+    nodes = job["nodes"]
+    subj = r["subjects"]
+
+    def viol(sig, msg):
+        v.violation(sig, "%s (graph over %d modules, %d classes): %s" % (job["id"], len(job["modules"]), len(nodes), msg), {"job": job, "result": r})
+
+    def aos(a):
+        seen, q = [], [a]
+        while q:
+            x = q.pop(0)
+            if x not in seen:
+                seen.append(x)
+                q += nodes[x]
+        return seen
+    for i, a in enumerate(subj):
+        if r["kinds"][i] != "class":
+            viol("subject-kind", "%s resolves as %s" % (a, r["kinds"][i]))
+            return
+    for i, a in enumerate(subj):
+        anc = aos(a)
+        for j, b in enumerate(subj):
+            stats["derived"] += 1
+            if r["derived"][i][j] != (b in anc):
+                viol("derived-modules", "is_derived_from(%s, %s) = %r, graph says %r (ancestors of %s: %s)" % (a, b, r["derived"][i][j], b in anc, a, anc))
+                return
+            cb = r["common"][i][j]
+            stats["common"] += 1
+            both = [x for x in anc if x in aos(b)]
+            if cb is not None and not is_err(cb) and cb not in [x.split("/")[1] for x in both]:
+                viol("common-base", "common_base_class(%s, %s) = %s names no common ancestor-or-self (%s)" % (a, b, cb, both))
+                return
+            if (cb is None or is_err(cb)) and both:
+                stats["common_missed"] += 1
+        for key in nodes:
+            pname = "q_%s_%s" % tuple(key.split("/"))
+            got = r["property"][pname][i]
+            stats["property"] += 1
+            if key in anc:
+                if got is None or is_err(got) or got["owner"] != key.split("/")[1]:
+                    viol("property-missed-modules", "property %s of ancestor %s not found from %s (%r)" % (pname, key, a, got))
+                    return
+            elif got is not None and not is_err(got):
+                viol("property-phantom", "property %s found from %s although %s is no ancestor" % (pname, a, key))
+                return
 
 
 class Ref:
@@ -117,6 +224,17 @@ class Ref:
 
     def declares_prop(self, c, p):
         return any(x["name"] == p for x in self.cls[c]["properties"])
+
+    def prop_unresolvable(self, c, p):
+        return any(x["name"] == p and x["type"].startswith("NoSuch") for x in self.cls[c]["properties"])
+
+    def method_unresolvable(self, c, m):
+        for kind in ("signals", "slots", "methods"):
+            for x in self.cls[c][kind]:
+                if x["name"] == m and x["access"] == "public" and (
+                        x.get("returnType", "").startswith("NoSuch") or any(a["type"].startswith("NoSuch") for a in x.get("arguments", []))):
+                    return True
+        return False
 
     def public_methods(self, c, m):
         n = 0
@@ -176,10 +294,17 @@ def check_job(v, job, r, stats):
         chain = ref.anc_or_self(a)
         dangling_on_path = unres_a or any(ref.ancestors(x)[1] for x in anc_a)
 
-        def lookup(kind, name, got, declares, describe):
+        def lookup(kind, name, got, declares, describe, unresolvable=lambda c: False):
             stats[kind] += 1
             owners = [c for c in chain if declares(c)]
             if owners:
+                if is_err(got) and any(unresolvable(c) for c in owners):
+                    # a declaration whose own type cannot be resolved answers with an error; which declaration is met first
+                    # among several ancestors is not prescribed, but an own declaration always is
+                    if declares(a) and not unresolvable(a):
+                        viol(kind + "-precedence", "%s %s from %s answers %r although the own declaration is well-typed" % (kind, name, a, got))
+                    stats[kind + "_unresolvable_type"] = stats.get(kind + "_unresolvable_type", 0) + 1
+                    return
                 if got is None or is_err(got):
                     sig = kind + ("-dangling" if dangling_on_path else "-missed")
                     viol(sig, "%s %s not found from %s (%r) though declared by %s" % (kind, name, a, got, owners))
@@ -195,10 +320,12 @@ def check_job(v, job, r, stats):
                     viol(kind + "-phantom", "%s %s found from %s (%r) though nobody declares it" % (kind, name, a, got))
 
         for p in job["property_names"]:
-            lookup("property", p, r["property"][p][i], lambda c: ref.declares_prop(c, p), lambda g: g["owner"])
+            lookup("property", p, r["property"][p][i], lambda c: ref.declares_prop(c, p), lambda g: g["owner"],
+                   lambda c: ref.prop_unresolvable(c, p))
         for m in job["method_names"]:
             got = r["method"][m][i]
-            lookup("method", m, got, lambda c: ref.public_methods(c, m) > 0, lambda g: g["owner"])
+            lookup("method", m, got, lambda c: ref.public_methods(c, m) > 0, lambda g: g["owner"],
+                   lambda c: ref.method_unresolvable(c, m))
             if isinstance(got, dict) and got["owner"] in ref.cls:
                 if got["count"] != ref.public_methods(got["owner"], m) or not got["same_owner"]:
                     viol("method-count", "method %s from %s: %r, owner declares %d public overloads"
@@ -223,7 +350,10 @@ def run(tier, seed, replay=None):
     if replay:
         jobs = [json.load(open(replay))["job"]]
     else:
-        jobs = [gen_graph(rng, i) for i in range(n)]
+        jobs = []
+        for i in range(n):
+            j = gen_modules_graph(rng, i) if i % 4 == 3 else None
+            jobs.append(j or gen_graph(rng, i))
     out = common.run_harness("typequery", jobs, tag="c17")
     stats = {k: 0 for k in ("derived", "common", "common_missed", "property", "method", "type", "variant")}
     shapes = set()
@@ -246,6 +376,13 @@ def run(tier, seed, replay=None):
         queries += r["queries"]
         if r["max_query_cpu_ms"] > common.CPU_BUDGET_S * 1000:
             v.violation("cpu", "%s: a query took %.0f ms CPU" % (job["id"], r["max_query_cpu_ms"]), {"job": job})
+        if job["style"] == "modules":
+            check_modules_job(v, job, r, stats)
+            names = [k.split("/")[1] for k in job["nodes"]]
+            if len(names) != len(set(names)):
+                stats["graphs_with_same_named_classes"] = stats.get("graphs_with_same_named_classes", 0) + 1
+            shapes.add(common.shash(sorted(job["nodes"].items())))
+            continue
         check_job(v, job, r, stats)
         edges = tuple(sorted((c["className"], tuple((s["name"], s["access"]) for s in c["superClasses"]))
                              for c in job["classes"]))
